@@ -51,6 +51,14 @@ type c05Writer struct {
 	reject    bool
 	failAfter bool // fail AddRaw of out-of-line revision bodies while this writer runs
 	failWrite bool // fail the storage write at the first attempt with no successful competitor
+	// how a pushed revision reaches the write loop: c05ViaBody = db.PutExistingRevWithBody (default options),
+	// c05ViaOpts = db.PutExistingRevWithConflictResolution with explicit PutDocOptions (optForce / noconf),
+	// c05ViaBlip = a rev message handled by the REAL blipHandler.handleRev of connection kind conn (noconf = the
+	// message's noconflicts property): the options are derived by the rev handler
+	via      int
+	conn     int
+	optForce bool
+	noconf   bool
 
 	// filled in at run time
 	parentRev   string
@@ -83,6 +91,138 @@ type c05Env struct {
 	ms    *vFaultStore // allocator metadata store
 	docN  int
 	allow bool
+	conns         map[int]*c05Conn
+	resolverCalls int // calls of a connection's conflict resolver (such a case is outside the model)
+	// legacy (revtree) revisions pushed over a version-vector connection that the HLV bookkeeping refused, see c05HLVRefusal
+	hlvRefusals      int
+	hlvRefusalSample string
+}
+
+// A revtree revision pushed over a version-vector connection (docUpdateEvent ExistingVersionLegacyRev) records the
+// revtree-encoded version of the document's NEW current revision in the HLV; HybridLogicalVector.AddVersion refuses a
+// value below the one already recorded for that source, so the write fails with an internal error -- after the
+// sequence was reserved -- whenever the new winning revision has a lower generation than an earlier one (e.g. a live
+// disconnected branch resurrecting a tombstone of a higher generation).  The HLV is not part of the write-loop
+// model: the refusal is an environment fault of the attempt (w_fail_after), like a failing storage operation.
+func c05HLVRefusal(err error) bool {
+	return err != nil && strings.Contains(err.Error(), "less than the existing value for the same source")
+}
+
+const (
+	c05ViaBody = iota
+	c05ViaOpts
+	c05ViaBlip
+)
+
+// connection kinds of the BLIP stream
+const (
+	c05PlainV3 = iota // a client, revtree protocol
+	c05PlainV4        // a client, version-vector protocol, pushing revtree ids (legacy revisions)
+	c05PeerV3         // the passive side of an inter-Sync-Gateway replication (client type SGR2)
+	c05PeerV4
+	c05PullV3 // the active side of a pull replication: a revtree conflict resolver is configured
+	c05PullV4 // ... revtree and HLV resolvers
+	c05ConnKinds
+)
+
+var c05ConnNames = []string{"client-v3", "client-v4", "peer-v3", "peer-v4", "pull-v3", "pull-v4"}
+
+func c05ConnV4(kind int) bool   { return kind == c05PlainV4 || kind == c05PeerV4 || kind == c05PullV4 }
+func c05ConnPeer(kind int) bool { return kind == c05PeerV3 || kind == c05PeerV4 }
+func c05ConnPull(kind int) bool { return kind == c05PullV3 || kind == c05PullV4 }
+
+// Go-side reflection of C05_force_derived_iff, written from the protocol's intent and independent of the code's
+// ConflictResolvers.IsEmpty: only a tombstone from a peer gateway / on a resolver connection may skip the conflict check
+func c05ForceExpected(w *c05Writer) bool {
+	switch w.via {
+	case c05ViaOpts:
+		return w.optForce
+	case c05ViaBlip:
+		return w.deleted && (c05ConnPeer(w.conn) || c05ConnPull(w.conn))
+	}
+	return false
+}
+
+// a REAL BlipSyncContext + blipHandler on the environment's database; the collection is the environment's (with
+// its fault-injecting data store), set the way collectionBlipHandler does
+type c05Conn struct {
+	kind   int
+	bsc    *BlipSyncContext
+	bh     *blipHandler
+	cancel context.CancelCauseFunc
+}
+
+func (e *c05Env) connOf(kind int) *c05Conn {
+	if c, ok := e.conns[kind]; ok {
+		return c
+	}
+	cctx, cancel := context.WithCancelCause(e.ctx)
+	bctx, bc, err := NewSGBlipContext(cctx, "", nil, nil)
+	if err != nil {
+		e.t.Fatalf("blip context: %v", err)
+	}
+	bsc, err := NewBlipSyncContext(bctx, bc, e.db, nil, cancel)
+	if err != nil {
+		e.t.Fatalf("blip sync context: %v", err)
+	}
+	proto := CBMobileReplicationV3
+	if c05ConnV4(kind) {
+		proto = CBMobileReplicationV4
+	}
+	if err := bsc.SetActiveCBMobileSubprotocol(proto.SubprotocolString()); err != nil {
+		e.t.Fatalf("subprotocol: %v", err)
+	}
+	if c05ConnPeer(kind) {
+		bsc.SetClientType(BLIPClientTypeSGR2)
+	}
+	if c05ConnPull(kind) {
+		// what ActivePullReplicator._connect does with the replication's configured resolver functions
+		counting := func(ctx context.Context, conflict Conflict) (Body, error) {
+			e.resolverCalls++
+			return DefaultConflictResolver(ctx, conflict)
+		}
+		bsc.conflictResolver.revTreeConflictResolver = NewConflictResolver(counting, nil)
+		if bsc.useHLV() {
+			bsc.conflictResolver.hlvConflictResolver = NewConflictResolver(counting, nil)
+		}
+	}
+	bh := newBlipHandler(bctx, bsc, bsc.copyContextDatabase(), 1)
+	bh.collection = &DatabaseCollectionWithUser{DatabaseCollection: e.col.DatabaseCollection, user: bh.db.User()}
+	bh.collectionCtx = newBlipSyncCollectionContext(bctx, e.col.DatabaseCollection)
+	bh.loggingCtx = bh.collection.AddCollectionContext(bsc.loggingCtx)
+	c := &c05Conn{kind: kind, bsc: bsc, bh: bh, cancel: cancel}
+	if e.conns == nil {
+		e.conns = map[int]*c05Conn{}
+	}
+	e.conns[kind] = c
+	return c
+}
+
+// the rev message a replicator sends for writer w (history newest first), handled by the connection's rev handler
+func (e *c05Env) blipPush(kind int, docid string, w *c05Writer) error {
+	c := e.connOf(kind)
+	rm := NewRevMessage()
+	rm.SetID(docid)
+	rm.SetRev(w.history[0])
+	if len(w.history) > 1 {
+		rm.Properties[RevMessageHistory] = strings.Join(w.history[1:], ",")
+	}
+	if w.deleted {
+		rm.Properties[RevMessageDeleted] = "1"
+	}
+	if w.noconf {
+		rm.SetNoConflicts(true)
+	}
+	b := Body{"tag": w.tag, "pad": strings.Repeat("x", 300), "channels": []string{"c"}}
+	if w.reject {
+		b["reject"] = true
+	}
+	raw, err := base.JSONMarshal(b)
+	if err != nil {
+		e.t.Fatalf("marshal: %v", err)
+	}
+	rm.SetBody(raw)
+	return c.bh.handleRev(rm.Message)
 }
 
 func c05NewEnv(t *testing.T, allowConflicts bool) *c05Env {
@@ -101,7 +241,12 @@ func c05NewEnv(t *testing.T, allowConflicts bool) *c05Env {
 	return e
 }
 
-func (e *c05Env) close() { e.db.Close(e.ctx) }
+func (e *c05Env) close() {
+	for _, c := range e.conns {
+		c.bsc.Close()
+	}
+	e.db.Close(e.ctx)
+}
 
 func (e *c05Env) body(w *c05Writer) Body {
 	b := Body{"tag": w.tag, "pad": strings.Repeat("x", 300), "channels": []string{"c"}}
@@ -168,6 +313,7 @@ func (e *c05Env) runWriter(c *c05Case, docid string, wi int, isMain bool) {
 	}
 	attempt := 0
 	var curFired bool
+	var lastCbErr error
 	prevFail := e.fs.failOp
 	prevHook := e.fs.onAttempt
 	if w.failAfter && isMain {
@@ -182,6 +328,10 @@ func (e *c05Env) runWriter(c *c05Case, docid string, wi int, isMain bool) {
 	// every writer's attempts are tracked; only the main writer gets competitors injected
 	e.fs.onAttempt = func(key string, n int, cbErr error) error {
 		attempt = n
+		lastCbErr = cbErr
+		if c05HLVRefusal(cbErr) {
+			curFired = true
+		}
 		w.failAfterAt = append(w.failAfterAt, curFired)
 		curFired = false
 		if cbErr != nil {
@@ -243,7 +393,49 @@ func (e *c05Env) runWriter(c *c05Case, docid string, wi int, isMain bool) {
 		}
 		b := e.body(w)
 		delete(b, BodyRev)
-		doc, rev, err = e.col.PutExistingRevWithBody(e.ctx, docid, b, w.history, false, ExistingVersionWithUpdateToHLV)
+		switch w.via {
+		case c05ViaOpts:
+			// what PutExistingRevWithBody does with the body, then the write with explicit options
+			deleted := b.ExtractDeleted()
+			newDoc := &Document{ID: docid, Deleted: deleted}
+			newDoc.UpdateBody(b)
+			doc, rev, err = e.col.PutExistingRevWithConflictResolution(e.ctx, PutDocOptions{NewDoc: newDoc, RevTreeHistory: w.history,
+				NoConflicts: w.noconf, ForceAllowConflictingTombstone: w.optForce, DocUpdateEvent: ExistingVersionWithUpdateToHLV})
+		case c05ViaBlip:
+			seq0 := uint64(0)
+			if d0, derr := e.col.GetDocument(e.ctx, docid, DocUnmarshalSync); derr == nil && d0 != nil {
+				seq0 = d0.Sequence
+			}
+			err = e.blipPush(w.conn, docid, w)
+			if c05HLVRefusal(err) {
+				if !isMain {
+					w.failAfterAt = []bool{true} // a competitor has exactly one attempt (the hook is not re-entered)
+				}
+				rec0 := fmt.Sprintf("doc=%s connection=%s history=%v deleted=%v error=%v", docid, c05ConnNames[w.conn], w.history, w.deleted, err)
+				if e.hlvRefusals == 0 {
+					e.hlvRefusalSample = rec0
+				}
+				e.hlvRefusals++
+			}
+			if err == nil {
+				// the handler only reports success: acknowledged write or cancelled no-op (revision already known)?
+				d1, derr := e.col.GetDocument(e.ctx, docid, DocUnmarshalAll)
+				cancelled := lastCbErr != nil
+				if !isMain {
+					cancelled = derr != nil || d1 == nil || d1.Sequence == seq0
+				}
+				if !cancelled {
+					if derr != nil || d1 == nil {
+						e.t.Errorf("harness: rev message acknowledged but the document cannot be read: %v", derr)
+						err = errVInjected
+					} else {
+						doc, rev = d1, w.history[0]
+					}
+				}
+			}
+		default:
+			doc, rev, err = e.col.PutExistingRevWithBody(e.ctx, docid, b, w.history, false, ExistingVersionWithUpdateToHLV)
+		}
 	} else {
 		rev, doc, err = e.col.Put(e.ctx, docid, e.body(w))
 	}
@@ -261,6 +453,18 @@ func (e *c05Env) runWriter(c *c05Case, docid string, wi int, isMain bool) {
 	}
 }
 
+func c05WriterKind(w *c05Writer) string {
+	switch {
+	case w.push == 0:
+		return "rest"
+	case w.via == c05ViaOpts:
+		return fmt.Sprintf("options(force=%v)", w.optForce)
+	case w.via == c05ViaBlip:
+		return "blip:" + c05ConnNames[w.conn]
+	}
+	return "push"
+}
+
 func c05Sorted(v []uint64) []uint64 {
 	r := append([]uint64{}, v...)
 	sort.Slice(r, func(i, j int) bool { return r[i] < r[j] })
@@ -272,6 +476,7 @@ func (e *c05Env) runCase(rec *vRecorder, stream string, c *c05Case, desc string)
 	docid := fmt.Sprintf("c05doc%d", e.docN)
 	e.ms.takeReleased()
 	base0 := e.db.sequences.last
+	resolver0 := e.resolverCalls
 	rel := func(v []uint64) []uint64 {
 		r := make([]uint64, len(v))
 		for i, x := range v {
@@ -323,6 +528,11 @@ func (e *c05Env) runCase(rec *vRecorder, stream string, c *c05Case, desc string)
 	}
 	last1 := e.db.sequences.last
 	released := c05Sorted(rel(e.ms.takeReleased()))
+	if e.resolverCalls != resolver0 {
+		// a connection's conflict resolver rewrote a conflicting revision: conflict resolution is outside this model
+		rec.Err("conflict_resolver_invoked:case-not-comparable")
+		return
+	}
 
 	// ---- final document ----
 	doc, err := e.col.GetDocument(e.ctx, docid, DocUnmarshalAll)
@@ -477,6 +687,34 @@ func (e *c05Env) runCase(rec *vRecorder, stream string, c *c05Case, desc string)
 		return win
 	}
 	addedRevs := 0
+	// C05_conflict_free_second_child_only_forced on the implementation's own acknowledgements: in a conflict-free
+	// database (or for a write that asked for noconflicts) an acknowledged write gives a parent a second child only
+	// if it is a pushed revision entitled to ForceAllowConflictingTombstone (c05ForceExpected: decided from the kind
+	// of connection, not from the code) and the document was a tombstone when it was written
+	secondChild := func(wi int, w *c05Writer, rev, par string) {
+		if par == "" || !hasChild(replay, par) || (c.allowConflicts && !(w.push > 0 && w.via != c05ViaBody && w.noconf)) {
+			return
+		}
+		tomb := false
+		if win := winnerOf(replay); win != "" {
+			tomb = replay[win].deleted
+		}
+		if w.push > 0 && c05ForceExpected(w) && tomb {
+			rec.Err("second_child_by_forced_tombstone:" + c05WriterKind(w))
+			return
+		}
+		var sibs []string
+		for id, n := range replay {
+			if n.parent == par {
+				sibs = append(sibs, id)
+			}
+		}
+		sort.Strings(sibs)
+		rec.Fail("one_child_per_parent_all", sigOr("second-child-without-forced-tombstone"),
+			map[string]any{"case": desc, "writer": wi, "kind": c05WriterKind(w), "rev": rev, "parent": par, "children_already_accepted": sibs,
+				"deleted": w.deleted, "noconflicts": w.noconf, "document_was_tombstone": tomb, "allow_conflicts": c.allowConflicts},
+			"a write that is not a forced tombstone on a deleted document was acknowledged as a second child of its parent")
+	}
 	for _, wi := range commitOrder {
 		w := c.writers[wi]
 		if w.push == 0 {
@@ -498,6 +736,7 @@ func (e *c05Env) runCase(rec *vRecorder, stream string, c *c05Case, desc string)
 					rec.Fail("tree_serial_replay", sigOr("plan-not-on-serial-tree"), map[string]any{"case": desc, "writer": wi, "rev": w.rev, "parent": par}, "Put acknowledged on a parent that is not a leaf of the tree the earlier commits produced")
 				}
 			}
+			secondChild(wi, w, w.rev, par)
 			replay[w.rev] = c05Node{par, w.deleted}
 			addedRevs++
 		} else {
@@ -513,6 +752,7 @@ func (e *c05Env) runCase(rec *vRecorder, stream string, c *c05Case, desc string)
 				rec.Fail("tree_serial_replay", sigOr("plan-not-on-serial-tree"), map[string]any{"case": desc, "writer": wi, "history": w.history}, "push acknowledged although the serial tree already has its revision")
 			}
 			for k := known - 1; k >= 0; k-- {
+				secondChild(wi, w, w.history[k], par)
 				replay[w.history[k]] = c05Node{par, k == 0 && w.deleted}
 				par = w.history[k]
 				addedRevs++
@@ -602,7 +842,14 @@ func (e *c05Env) runCase(rec *vRecorder, stream string, c *c05Case, desc string)
 		for _, h := range w.history {
 			hist = append(hist, c05ParseRev(h).coq())
 		}
-		ops = append(ops, fmt.Sprintf("W %d %s %s %s %s %s %s", w.tag, par, cqList(hist), cqBool(w.deleted), cqBool(w.reject), cqList(fa), cqBool(w.failWrite && (w.tracked || !w.ran))))
+		ctor := "W"
+		if w.push > 0 && w.via == c05ViaOpts {
+			ctor = "WO " + cqBool(w.optForce) + " " + cqBool(w.noconf)
+		} else if w.push > 0 && w.via == c05ViaBlip {
+			// the connection as built by connOf -- peer gateway? revtree resolver? HLV resolver? -- and the noconflicts property
+			ctor = "WB " + cqBool(c05ConnPeer(w.conn)) + " " + cqBool(c05ConnPull(w.conn)) + " " + cqBool(w.conn == c05PullV4) + " " + cqBool(w.noconf)
+		}
+		ops = append(ops, fmt.Sprintf("%s %d %s %s %s %s %s %s", ctor, w.tag, par, cqList(hist), cqBool(w.deleted), cqBool(w.reject), cqList(fa), cqBool(w.failWrite && (w.tracked || !w.ran))))
 		switch {
 		case !w.ran:
 			outs = append(outs, "None")
@@ -632,6 +879,9 @@ func (e *c05Env) runCase(rec *vRecorder, stream string, c *c05Case, desc string)
 	rec.Case(stream, "write_schedule", coq, map[string]any{"desc": desc, "outcomes": kinds, "schedule": sched, "released": released, "final_seq": finSeq}, nontrivial)
 	rec.Err("outcomes:" + kinds)
 	for _, w := range c.writers {
+		if w.ran && w.push > 0 && w.via != c05ViaBody {
+			rec.Err("push_via:" + c05WriterKind(w) + ":" + w.outcome)
+		}
 		if w.ran && w.push > 0 && w.badGen > 0 {
 			rec.Err(fmt.Sprintf("bad_generation_push(kind %d):%s", w.badGen, w.outcome))
 		}
@@ -728,6 +978,149 @@ func TestVerifC05(t *testing.T) {
 			main:    0, inject: map[int][]int{1: {1}}}, "same-root-push-race")
 	}
 
+	// ---- write options and the BLIP rev handler (C05/RevOptions.v) ----
+	// pushed revisions written with explicit PutDocOptions, and rev messages handled by the REAL blipHandler.handleRev
+	// of real BlipSyncContexts: clients (revtree / version-vector protocol), the passive side of an inter-gateway
+	// replication, the active side of a pull replication (resolvers configured); with and without the noconflicts
+	// property; on live and on tombstoned documents
+	mkB := func(tag, ancOf, nNew, conn int, flags string) *c05Writer {
+		w := mkPush(tag, ancOf, nNew, flags)
+		w.via, w.conn, w.noconf = c05ViaBlip, conn, strings.Contains(flags, "n")
+		return w
+	}
+	mkO := func(tag, ancOf, nNew int, force bool, flags string) *c05Writer {
+		w := mkPush(tag, ancOf, nNew, flags)
+		w.via, w.optForce, w.noconf = c05ViaOpts, force, strings.Contains(flags, "n")
+		return w
+	}
+	seqAll := func(n int) []int {
+		r := make([]int, n)
+		for i := range r {
+			r[i] = i
+		}
+		return r
+	}
+	for _, ac := range []bool{false, true} {
+		for _, nc := range []string{"", "n"} {
+			for k := 0; k < c05ConnKinds; k++ {
+				name := func(sc string) string {
+					return fmt.Sprintf("blip-%s-%s-ac=%v-noconflicts=%v", c05ConnNames[k], sc, ac, nc != "")
+				}
+				// two replicators delete the same revision independently: the second tombstone finds the document deleted
+				envs[ac].runCase(rec, "blip-corpus", &c05Case{allowConflicts: ac, main: -1, setup: seqAll(3),
+					writers: []*c05Writer{mkB(1, -1, 1, k, nc), mkB(2, 0, 1, k, "d"+nc), mkB(3, 0, 1, k, "d"+nc)}}, name("second-tombstone-of-same-parent"))
+				// deleted through the REST API first, then a replicator that still holds the revision pushes its own tombstone
+				envs[ac].runCase(rec, "blip-corpus", &c05Case{allowConflicts: ac, main: -1, setup: seqAll(3),
+					writers: []*c05Writer{mk(1, -1, ""), mk(2, 0, "d"), mkB(3, 0, 1, k, "d"+nc)}}, name("tombstone-after-rest-delete"))
+				// tombstone of a revision that is no longer a leaf, document live
+				envs[ac].runCase(rec, "blip-corpus", &c05Case{allowConflicts: ac, main: -1, setup: seqAll(3),
+					writers: []*c05Writer{mk(1, -1, ""), mk(2, 0, ""), mkB(3, 0, 1, k, "d"+nc)}}, name("tombstone-of-non-leaf-live-document"))
+				// live revision branching from a revision of a deleted document
+				envs[ac].runCase(rec, "blip-corpus", &c05Case{allowConflicts: ac, main: -1, setup: seqAll(3),
+					writers: []*c05Writer{mk(1, -1, ""), mk(2, 0, "d"), mkB(3, 0, 1, k, nc)}}, name("live-branch-on-deleted-document"))
+				// tombstone with an unknown history onto a deleted document; then a third tombstone of the first revision
+				envs[ac].runCase(rec, "blip-corpus", &c05Case{allowConflicts: ac, main: -1, setup: seqAll(4),
+					writers: []*c05Writer{mk(1, -1, ""), mk(2, 0, "d"), mkB(3, -1, 2, k, "d"+nc), mkB(4, 0, 2, k, "d"+nc)}}, name("disconnected-tombstone-on-deleted-document"))
+				// a live disconnected branch of a LOWER generation resurrects a tombstoned document (legal, IsIllegalConflict case c);
+				// over a version-vector connection the HLV bookkeeping refuses it (c05HLVRefusal)
+				envs[ac].runCase(rec, "blip-corpus", &c05Case{allowConflicts: ac, main: -1, setup: seqAll(3),
+					writers: []*c05Writer{mkB(1, -1, 2, k, "d"+nc), mkB(2, -1, 1, k, nc), mkB(3, 0, 1, k, nc)}}, name("lower-generation-branch-resurrects-tombstone"))
+				// a pushed tombstone races with a REST delete of the same revision (between its callback and its write)
+				envs[ac].runCase(rec, "blip-corpus", &c05Case{allowConflicts: ac, setup: []int{0}, main: 1, inject: map[int][]int{1: {2}},
+					writers: []*c05Writer{mk(1, -1, ""), mkB(2, 0, 1, k, "d"+nc), mk(3, 0, "d")},
+				}, name("tombstone-races-with-rest-delete"))
+				// a pushed tombstone loses the race to a pushed tombstone of the same revision from another connection
+				envs[ac].runCase(rec, "blip-corpus", &c05Case{allowConflicts: ac, setup: []int{0, 1}, main: 2, inject: map[int][]int{1: {3}},
+					writers: []*c05Writer{mk(1, -1, ""), mk(2, 0, ""), mkB(3, 1, 1, k, "d"+nc), mkB(4, 1, 1, (k+1)%c05ConnKinds, "d"+nc), mkB(5, 1, 1, k, "d"+nc)}, after: []int{4},
+				}, name("tombstone-loses-race-to-tombstone"))
+			}
+			// explicit options, also the combinations the rev handler never derives (forced live revision)
+			for _, force := range []bool{false, true} {
+				name := func(sc string) string {
+					return fmt.Sprintf("options-force=%v-%s-ac=%v-noconflicts=%v", force, sc, ac, nc != "")
+				}
+				envs[ac].runCase(rec, "blip-corpus", &c05Case{allowConflicts: ac, main: -1, setup: seqAll(4),
+					writers: []*c05Writer{mkO(1, -1, 1, force, nc), mkO(2, 0, 1, force, "d"+nc), mkO(3, 0, 1, force, "d"+nc), mkO(4, 0, 1, force, nc)}}, name("second-tombstone-then-live-branch"))
+				envs[ac].runCase(rec, "blip-corpus", &c05Case{allowConflicts: ac, main: -1, setup: seqAll(4),
+					writers: []*c05Writer{mk(1, -1, ""), mk(2, 0, ""), mkO(3, 0, 1, force, "d"+nc), mkO(4, 0, 2, force, nc)}}, name("non-leaf-parent-live-document"))
+			}
+		}
+	}
+	// random: mostly pushed revisions over random connections, many tombstones, sequential and racing
+	nb := vBudget(160, 1100)
+	for i := 0; i < nb; i++ {
+		ac := rnd.Chance(30)
+		nw := 3 + rnd.Intn(4)
+		c := &c05Case{allowConflicts: ac, main: -1, inject: map[int][]int{}}
+		for j := 0; j < nw; j++ {
+			flags := ""
+			if rnd.Chance(45) {
+				flags += "d"
+			}
+			if rnd.Chance(35) {
+				flags += "n"
+			}
+			if rnd.Chance(5) {
+				flags += "r"
+			}
+			par := -1
+			if j > 0 && rnd.Chance(85) {
+				par = rnd.Intn(j)
+			}
+			switch {
+			case j == 0 || rnd.Chance(25):
+				c.writers = append(c.writers, mk(j+1, par, strings.ReplaceAll(flags, "n", "")))
+			case rnd.Chance(15):
+				c.writers = append(c.writers, mkPush(j+1, par, 1+rnd.Intn(2), strings.ReplaceAll(flags, "n", "")))
+			case rnd.Chance(18):
+				c.writers = append(c.writers, mkO(j+1, par, 1+rnd.Intn(2), rnd.Bool(), flags))
+			default:
+				kind := c05PlainV3
+				switch r := rnd.Intn(100); {
+				case r < 35:
+					kind = c05PlainV3
+				case r < 50:
+					kind = c05PlainV4
+				case r < 70:
+					kind = c05PeerV3
+				case r < 80:
+					kind = c05PeerV4
+				case r < 92:
+					kind = c05PullV3
+				default:
+					kind = c05PullV4
+				}
+				n := 1
+				if rnd.Chance(20) {
+					n = 2
+				}
+				c.writers = append(c.writers, mkB(j+1, par, n, kind, flags))
+			}
+		}
+		if rnd.Chance(60) {
+			c.setup = seqAll(nw)
+		} else {
+			ns := 1 + rnd.Intn(2)
+			if ns > nw-2 {
+				ns = nw - 2
+			}
+			c.setup = seqAll(ns)
+			c.main = ns
+			att := 1
+			for j := ns + 1; j < nw; j++ {
+				if rnd.Intn(4) == 0 {
+					c.after = append(c.after, j)
+				} else {
+					c.inject[att] = append(c.inject[att], j)
+					if rnd.Chance(50) {
+						att++
+					}
+				}
+			}
+		}
+		envs[ac].runCase(rec, "blip-random", c, fmt.Sprintf("blip-random-%d", i))
+	}
+
 	// ---- random schedules ----
 	n := vBudget(220, 1500)
 	for i := 0; i < n; i++ {
@@ -806,5 +1199,13 @@ func TestVerifC05(t *testing.T) {
 			}
 		}
 		envs[ac].runCase(rec, "random", c, fmt.Sprintf("random-%d", i))
+	}
+
+	// ---- version-vector protocol (db.PutExistingCurrentVersion): monitor-only, see verif_c05_hlv_test.go ----
+	c05HLVStream(rec, rnd, envs[false])
+	for _, ac := range []bool{true, false} {
+		if envs[ac].hlvRefusals > 0 {
+			rec.Extra(fmt.Sprintf("legacy_rev_refused_by_hlv_monotonicity(allow_conflicts=%v)", ac), map[string]any{"count": envs[ac].hlvRefusals, "first": envs[ac].hlvRefusalSample})
+		}
 	}
 }
